@@ -110,7 +110,7 @@ def run(ctx, report: Report) -> None:
     identity_table(ctx, r3)
 
     # ---- R5 (the whole pipeline by interpretation, bounded) --------------------------------------------------------------
-    r5 = report.rule('C03-R5', 'select / iselect / select_one / limit / filter / closest agree with match() element by element (bounded)', floor=32)
+    r5 = report.rule('C03-R5', 'select / iselect / select_one / limit / filter / closest agree with match() element by element (bounded)', floor=59)
     from .e2ematch import api_consistency_table
     api_consistency_table(ctx, r5, deep=(ctx.tier == 'thorough'))
     from .e2ematch import one_call_table
@@ -123,6 +123,6 @@ def run(ctx, report: Report) -> None:
 
     # ---- R7 (the whole pipeline by interpretation, bounded) --------------------------------------------------------------
     r7 = report.rule('C03-R7', ':scope and & denote exactly the element the call was made on, in every position of a selector and through every '
-                     'entry point (bounded)', floor=253)
+                     'entry point (bounded)', floor=309)
     from .e2ematch import scope_denotation_table
     scope_denotation_table(ctx, r7, deep=(ctx.tier == 'thorough'))
